@@ -1491,9 +1491,9 @@ theorem not_le_zero_of_lt_zero (f : F64) (h : F64.lt f F64.zero = true) : F64.le
     · simp [F64.lt, F64.zero, hm] at h
     · cases s <;> simp_all [F64.lt, F64.le, F64.eq, F64.zero]
 
-/-- integral and in `(-2^63, 0)`: a `Negative` integer, never a float -/
+/-- integral and in `[-2^63, 0)`: a `Negative` integer, never a float -/
 theorem ofF64_neg (f : F64) (hfr : f.fractIsZero = true) (h0 : F64.lt f F64.zero = true)
-    (h1 : F64.lt (F64.ofInt (-(2 ^ 63))) f = true) :
+    (h1 : F64.le (F64.ofInt (-(2 ^ 63))) f = true) :
     Num.ofF64 f = .neg f.toI64 := by
   simp only [Num.ofF64, hfr, h0, h1, not_le_zero_of_lt_zero f h0, Bool.false_and, Bool.and_self, if_true,
     Bool.false_eq_true, if_false]
@@ -1505,7 +1505,7 @@ theorem ofF64_flt (f : F64) (hfr : f.fractIsZero = false) : Num.ofF64 f = .flt f
 /-- integral but outside both ranges: a float -/
 theorem ofF64_flt_big (f : F64)
     (hp : (F64.le F64.zero f && F64.lt f (F64.ofNat (2 ^ 64 - 1))) = false)
-    (hn : (F64.lt f F64.zero && F64.lt (F64.ofInt (-(2 ^ 63))) f) = false) : Num.ofF64 f = .flt f := by
+    (hn : (F64.lt f F64.zero && F64.le (F64.ofInt (-(2 ^ 63))) f) = false) : Num.ofF64 f = .flt f := by
   unfold Num.ofF64
   rw [hp, hn]
   simp
@@ -1513,7 +1513,7 @@ theorem ofF64_flt_big (f : F64)
 /-- so an integral value in range is never rendered through the float printer -/
 theorem ofF64_not_flt (f : F64) (hfr : f.fractIsZero = true)
     (h : (F64.le F64.zero f = true ∧ F64.lt f (F64.ofNat (2 ^ 64 - 1)) = true) ∨
-         (F64.lt f F64.zero = true ∧ F64.lt (F64.ofInt (-(2 ^ 63))) f = true)) :
+         (F64.lt f F64.zero = true ∧ F64.le (F64.ofInt (-(2 ^ 63))) f = true)) :
     ∀ g, Num.ofF64 f ≠ .flt g := by
   intro g
   rcases h with ⟨h0, h1⟩ | ⟨h0, h1⟩
